@@ -481,6 +481,48 @@ class Body:
         return out
 
 
+ALL_FACTS = []  # every Facts object loaded in this process (closure upvar lookups need the closure's body)
+UPVARS = {}     # closure body key -> {upvar name: index in the closure aggregate}
+
+
+def upvar_index(facts, key, name):
+    m = UPVARS.get(key)
+    if m is None:
+        m = {}
+        b = None
+        for fx in ([facts] if facts is not None else []) + ALL_FACTS:
+            b = fx.bodies.get(key)
+            if b is not None:
+                break
+        if b is not None:
+            def scan(pl):
+                for pr in pl[1]:
+                    if isinstance(pr, list) and pr[0] == 'f' and len(pr) > 3 and pr[3] == '{closure}':
+                        m[pr[2]] = pr[1]
+            for bl in b.blocks:
+                for st in bl['s']:
+                    for x in _places_in(st):
+                        scan(x)
+                for x in _places_in(bl['t']):
+                    scan(x)
+        UPVARS[key] = m
+    return m.get(name)
+
+
+def _places_in(x):
+    """MIR places ([local, [projections]]) occurring anywhere in a statement / terminator"""
+    out = []
+    if isinstance(x, list):
+        if len(x) == 2 and isinstance(x[0], int) and isinstance(x[1], list) and all(isinstance(p, (list, str)) for p in x[1]):
+            out.append(x)
+        for y in x:
+            out += _places_in(y)
+    elif isinstance(x, dict):
+        for y in x.values():
+            out += _places_in(y)
+    return out
+
+
 def _is_prefix(a, b):
     return len(a) <= len(b) and tuple(b[:len(a)]) == tuple(a)
 
@@ -884,7 +926,9 @@ class Facts:
     @staticmethod
     def load(path):
         with open(path) as f:
-            return Facts(json.load(f))
+            fx = Facts(json.load(f))
+        ALL_FACTS.append(fx)
+        return fx
 
     def body(self, key):
         return self.bodies.get(key)
@@ -1397,6 +1441,11 @@ def guard_edges(facts, body, pred):
                     ok = pred(fact)
                     if not ok and fact[0] == 'bool':
                         ok = _holds_via_helper(facts, fact, pred)
+                    if not ok and fact[0] == 'bool' and _HELPER_DEPTH[0] == 0:
+                        # a condition bound to a local closure (`let ok = || a || b; .. if ok() ..`)
+                        inner = _closure_call(facts, fact[1])
+                        if inner is not None:
+                            ok = _returns_only_via(facts, inner[0], inner[1], fact[2], pred)
                     if not ok and fact[0] in ('is', 'bool'):
                         ok = _holds_via_closure(facts, fact, pred)
             except Exception:
@@ -1437,6 +1486,29 @@ def _holds_via_closure(facts, fact, pred):
     for _ in range(4):
         if n[0] in ('ref', 'deref', 'after', 'proj', 'field') and len(n) >= 2:
             n = strip(n[1])
+    if fact[0] == 'is' and n[0] == 'call' and n[1].rsplit('::', 1)[-1] == 'next' and len(n[2]) == 1:
+        # `for x in it.filter(|x| c(x))`: an item that comes out of the adaptor made the closure answer true
+        stack, flt = [n[2][0]], None
+        for _ in range(40):
+            if not stack:
+                break
+            y = strip(stack.pop())
+            if y[0] == 'call' and y[1].rsplit('::', 1)[-1] == 'filter' and 'Iterator' in y[1] and len(y[2]) == 2:
+                flt = y
+                break
+            if y[0] == 'phi':
+                stack.extend(y[1])
+            elif y[0] in ('ref', 'deref', 'after', 'proj', 'field') and len(y) >= 2 and isinstance(y[1], tuple):
+                stack.append(y[1])
+            elif y[0] == 'call' and y[2] and y[1].rsplit('::', 1)[-1] in ('into_iter', 'by_ref', 'iter', 'iter_mut'):
+                stack.append(y[2][0])
+        if flt is not None:
+            clo = strip(flt[2][1])
+            if clo[0] == 'agg' and str(clo[1]).startswith('closure:'):
+                cb = facts.bodies.get(clo[1][len('closure:'):])
+                if cb is not None and len(cb.blocks) <= 80 and cb.locals[0]['ty'] == 'bool':
+                    return _returns_only_via(facts, cb, {1: clo}, True, pred)
+        return False
     if n[0] != 'call' or len(n[2]) != 2 or n[1].rsplit('::', 1)[-1] not in (('find', 'position', 'rposition', 'find_map', 'filter') if fact[0] == 'is' else ('any',)):
         return False
     if n[1].rsplit('::', 1)[-1] == 'filter' and 'Option' not in n[1]:
